@@ -38,6 +38,8 @@ def r2(ctx):
     fi = ana.func(LK + "all_points_all_clusters_log_likelihood_fast")
     scalar = ana.func(LK + "point_log_likelihood_fast")
     b = ana.builder(fi, no_inline=ana.known)
+    if len(fi.params) != 6:
+        raise AnalysisError(f"table kernel takes {len(fi.params)} parameters ({', '.join(fi.params)}): the rule is written for (W, K, means, precisions, log-determinants, data)")
     W, K, mus, thetas, lds, data = (Sym(p) for p in fi.params)
     stores = [s for s in b.stores() if s.idx is not None and len(s.idx) == 2]
     if len(stores) != 1:
